@@ -46,6 +46,11 @@ UNSUPPORTED = {
     "strenum": "_StrEnum.A",
     "named_int": "_named_int(7)",  # a user class *named* 'int' deriving from int
     "named_list": "_named_list([1])",
+    # strings the UTF-8 codec cannot encode (the symbolic str search does not reliably find the surrogate ranges by itself)
+    "sur_high": "'\\ud800'",
+    "sur_low_escape": "'\\udc80'",      # what os.fsdecode produces for an undecodable byte (errors='surrogateescape' would let it through)
+    "sur_low_mid": "'a\\udcffb'",
+    "sur_last": "'\\udfff'",
 }
 
 UNSUPPORTED_PRELUDE = '''
@@ -194,4 +199,4 @@ def dicts1(keys=KEYCAT, values=LEAVES) -> list:
             out.append(("D", [(a, b)]))
     return out
 
-HASHABLE_UNSUPPORTED = ["object", "intsub", "strsub", "tuplesub", "bytessub", "floatsub", "frozensetsub", "strenum", "named_int", "type", "func"]
+HASHABLE_UNSUPPORTED = ["object", "intsub", "strsub", "tuplesub", "bytessub", "floatsub", "frozensetsub", "strenum", "named_int", "type", "func", "sur_low_escape", "sur_high"]
